@@ -156,11 +156,12 @@ def lastOf (xs : List Str) : Except Err Str :=
   | some x => .ok x
   | none => .error .indexError
 
-/-- google.py:170-173: `if not path[2]: return None` / `return GoogleDriveFile(…, path[2])` -/
+/-- google.py:170-176: `file_id = path[2].strip()` / `if not file_id: return None` /
+`return GoogleDriveFile(…, file_id)` (as repaired by d47b8e8) -/
 def fileBranch (driveType : Str) (path : List Str) : Except Err (Option Record) :=
   match idx path 2 with
   | .error e => .error e
-  | .ok p2 => .ok (if p2 = [] then none else some (.file driveType p2))
+  | .ok p2 => .ok (if strip p2 = [] then none else some (.file driveType (strip p2)))
 
 /-- google.py:161-168: the body of `if len(path) > 3 and path[-1] == "pub":` -/
 def pubBranch (driveType : Str) (path : List Str) : Except Err (Option Record) :=
